@@ -151,10 +151,25 @@ class SphinxBuild:
         status, warning = io.StringIO(), io.StringIO()
         records = self.records
 
+        seen = []
+
         class H(logging.Handler):
             def emit(self, record):
+                # sphinx buffers warnings (pending_warnings) and hands the same record object to the logger again on flush
+                if any(r is record for r in seen):
+                    return
+                seen.append(record)
                 if record.levelno >= logging.WARNING:
                     loc = getattr(record, "location", None)
+                    try:
+                        from sphinx.util.logging import get_node_location
+
+                        if isinstance(loc, nodes.Node):
+                            loc = get_node_location(loc)
+                        elif isinstance(loc, tuple):
+                            loc = ":".join(str(x) for x in loc if x is not None)
+                    except Exception:  # noqa: BLE001
+                        pass
                     records.append(
                         {
                             "type": getattr(record, "type", None),
